@@ -10,7 +10,7 @@ RULE = ('complete enumeration over a hierarchy (LookupError > {KeyError, IndexEr
         'every handler specialisation of <= 3 types (plain and nested, Concurrent[LookupError], Concurrent[KeyError, ...]) with and '
         'without trailing ..., plus bare Concurrent x the three mechanisms isinstance / issubclass / a real except clause, compared with '
         'a reference predicate written from the statement; class identity under permutation and duplication of children; flattened() '
-        'leaf order; all of it under the native frozenset and under forward/reverse iteration order of the specialisation set. '
+        'leaf order; all of it under the native frozenset and under forward / reverse / alternating (neighbouring containers in opposite directions) iteration order of the specialisation sets. '
         'non-trivial = the reference predicate says "match" for a handler that is not the exact class of the failure, or "no match" '
         'although some listed type matches some child')
 ASSUMPTIONS = [
@@ -90,7 +90,7 @@ def raised():
     return out
 
 
-POLICIES = ('native', 'forward', 'reverse')
+POLICIES = ('native', 'forward', 'reverse', 'altA', 'altB')
 
 
 def BOUNDS(tier):
@@ -118,6 +118,7 @@ def set_policy(pol):
         mod.__dict__.pop('set', None)
     else:
         choicesets._policy[0] = pol
+        choicesets._created[0] = 0
         mod.__dict__['frozenset'] = choicesets.ChoiceFrozenSet
         mod.__dict__['set'] = choicesets.ChoiceSet
 
